@@ -50,7 +50,7 @@ def check(run):
                 lines.append((cid, "hiselect %s %s %s %s" % (dump, hl.hx(tname), hl.hx("no_such_index"), hl.names([hl.unq(db.tables[tname]["cols"][0])]))))
                 meta[cid] = (db, [], None, "IndexedSelect with an unknown index")
         conn.close()
-    res, impl, model = ops.run_cmds("c02-iselect", lines, timeout=1500)
+    res, impl, model = ops.run_cmds("c02-iselect", lines, timeout=1500, shards=8)
     for cid, cmd in lines:
         if cid not in meta:
             continue
